@@ -180,6 +180,22 @@ def run(ctx, idx):
                         "`%s` compares the dotted paths part by part over zip(), which stops at the shorter one: requesting `pkg.sub` also selects the commands defined in `pkg` itself (every ancestor package matches)" % K.src(inner)[:90])
         else:
             raise AnalysisError("C19.a: membership predicate `%s` is outside the recognised forms" % K.src(cond))
+    # every requested library is loaded, whatever else was requested with it
+    cfg0 = K.cfg_of(idx, init)
+    libparam = [a.arg for a in init.node.args.args if "lib" in a.arg.lower()]
+    heads0 = [h for h in cfg0.find("iter") if not h.meta.get("comp") and isinstance(h.meta["iter"], ast.Name) and h.meta["iter"].id in libparam]
+    loads = cfg0.find("call", lambda n: isinstance(n.ast.func, ast.Attribute) and n.ast.func.attr == "load_commands")
+    con = "%s::every-requested-library-loaded" % init.key
+    if not loads:
+        ctx.violate("C19.a", con, K.rel(init), init.node.lineno, "Program.__init__ never loads the requested libraries")
+    else:
+        okl = False
+        for h in heads0:
+            firsts = [m for m, l in h.succ if l == "loop"]
+            if firsts and all(cfg0.must_pass_through(b, h, set(loads)) for b in firsts) and cfg0.must_pass_through(cfg0.entry, cfg0.exit, {h}):
+                okl = True
+        ctx.ob("C19.a", con, K.rel(init), loads[0].line, okl, "load_commands runs for every element of the requested libraries" if okl else
+               "load_commands is skipped for some requested libraries (a condition or `continue` inside the loading loop): whether such a library's commands exist then depends on what else was requested and on what earlier programs or imports already registered")
     # the loader executes what the filter admits: every module below a requested package
     lc = prog.methods.get("load_commands")
     if lc is None:
